@@ -406,8 +406,10 @@ def rope_encode(r, encoding="utf-8", errors="strict"):
                 continue
             if limit == 127 and enc.startswith("utf"):
                 # non-ASCII utf-8: opaque multi-byte encoding, at least as long as the text
+                # not all elements <= 127: some character needs more than one byte, so the UTF-8 image is
+                # strictly longer than the text (and the text is not empty)
                 ln = c.fresh_int("utf8len")
-                c.assume(ln >= ch.length())
+                c.assume(z3.And(ln > ch.length(), ch.length() > 0, ln <= 4 * ch.length()))
                 c.imprecise = True
                 out.append(BX(("utf8", ch.base.name, str(ch.lo), str(ch.hi)), ln))
                 continue
